@@ -1,5 +1,6 @@
 import VlsModel.Model.Hmac
 import VlsModel.Gen.HmacFn
+import VlsModel.Gen.FnPersistMod
 import VlsModel.Lemmas.FnGen
 /-
 C17 — the hand-written HMAC-input model (`Model/Hmac.lean`: `encRec`, `encShared`, `sharedTag`, `valueTag`, `Helper`,
@@ -336,5 +337,61 @@ theorem C17_fn_init_state_refuses (mac : Mac) (e : Bytes)
 /-- non-vacuity: a one-record list and a stored value -/
 example : Core.compute_shared_hmac (fun k m => k ++ m) [1] [2] ([⟨[3], 4, [5]⟩].map toGen)
     = [1, 1, 2, 3, 0, 0, 0, 0, 0, 0, 0, 4, 5] := by decide
+
+/-! ## Round 9: `Mutations` and `ExternalPersistHelper::new` through rs2lean (`Gen/FnPersistMod.lean`)
+
+`Mutations` is the newtype every record list passes through between the wire and the tag functions (`lss.rs::get` →
+`Mutations::from_vec` → `check_hmac`; the commit log → `Mutations::from_vec` → `client_hmac`).  The tuple struct is read as
+its component (target key `tuple_structs`), so the generated definitions say what the constructors and accessors do to
+the **list**: nothing.  A constructor that sorts, deduplicates or truncates (seed C17-r3-1) changes the generated text
+and these equalities stop holding — the tag would then be computed over a list other than the one received. -/
+
+open VlsModel.Gen.FnPersistMod (Mutations.new Mutations.from_vec Mutations.add Mutations.inner Mutations.into_inner
+  Mutations.is_empty Mutations.len)
+
+/-- the record type of the rs2lean translation (keys as strings, bytes as `Nat`s) -/
+abbrev RsRec := String × (Nat × List Nat)
+
+theorem C17_fn_mutations_new : Mutations.new = ([] : List RsRec) := rfl
+
+/-- `from_vec` keeps the list exactly: same records, same order, same multiplicity -/
+theorem C17_fn_mutations_from_vec (l : List RsRec) : Mutations.from_vec l = l := rfl
+
+/-- `add` appends exactly one record at the end -/
+theorem C17_fn_mutations_add (m : List RsRec) (k : String) (v : Nat) (x : List Nat) :
+    Mutations.add m k v x = m ++ [(k, (v, x))] := rfl
+
+theorem C17_fn_mutations_inner (m : List RsRec) : Mutations.inner m = m := rfl
+theorem C17_fn_mutations_into_inner (m : List RsRec) : Mutations.into_inner m = m := rfl
+theorem C17_fn_mutations_is_empty (m : List RsRec) : Mutations.is_empty m = m.isEmpty := rfl
+theorem C17_fn_mutations_len (m : List RsRec) : Mutations.len m = m.length := rfl
+
+/-- what is taken out is what was put in, for every way of building the value: the list that reaches
+    `compute_shared_hmac` (through `iter()` = the same component) is the list received / logged -/
+theorem C17_fn_mutations_roundtrip (l : List RsRec) :
+    Mutations.into_inner (Mutations.from_vec l) = l ∧ Mutations.inner (Mutations.from_vec l) = l
+      ∧ Mutations.into_inner (l.foldl (fun m r => Mutations.add m r.1 r.2.1 r.2.2) Mutations.new) = l := by
+  refine ⟨rfl, rfl, ?_⟩
+  have : ∀ (acc : List RsRec), l.foldl (fun m r => Mutations.add m r.1 r.2.1 r.2.2) acc = acc ++ l := by
+    induction l with
+    | nil => intro acc; simp
+    | cons r rs ih =>
+      intro acc
+      rw [List.foldl_cons, ih, C17_fn_mutations_add]
+      simp
+  simpa [C17_fn_mutations_into_inner, C17_fn_mutations_new] using this []
+
+/-- the helper structure of the rs2lean translation against the model's (bytes as `Nat`s) -/
+def toRsH (h : Helper) : Gen.FnPersistMod.ExternalPersistHelper :=
+  { shared_secret := h.secret.map UInt8.toNat, last_nonce := h.lastNonce.map UInt8.toNat }
+
+/-- `ExternalPersistHelper::new`: the secret as given and the all-zero 32-byte nonce — the same function as
+    `C17_fn_helper_new` (byte-assembly translator), now also from rs2lean -/
+theorem C17_fn_rs_helper_new (secret : Bytes) :
+    Gen.FnPersistMod.ExternalPersistHelper.new (secret.map UInt8.toNat) = toRsH (Helper.new secret) := by
+  simp [Gen.FnPersistMod.ExternalPersistHelper.new, toRsH, Helper.new]
+
+example : Mutations.into_inner (Mutations.add (Mutations.from_vec [("b", (1, [2])), ("a", (0, []))]) "a" 3 [4])
+    = [("b", (1, [2])), ("a", (0, [])), ("a", (3, [4]))] := by decide
 
 end VlsModel.Props.C17Fn
